@@ -103,7 +103,7 @@ type Policy struct {
 
 // Fault is one injected fault (C19).
 type Fault struct {
-	Kind string `json:"kind"` // "" none | "close" (after receiving uplink Index, before answering) | "garbage" (in place of downlink Index)
+	Kind string `json:"kind"` // "" none | "close" (after receiving uplink Index, before answering) | "garbage" (in place of downlink Index) | "close-after-dl" (downlink Index is sent, then the association is gone)
 	Index int   `json:"index"`
 	// garbage family: "prefix" (strict prefix of PrefixLen octets), "choice3" (top-level CHOICE index 3),
 	// "length" (outer open-type length raised beyond the datagram)
